@@ -270,28 +270,55 @@ fn plan_item(it: &[u8]) -> Plan {
     Plan::Raw
 }
 
+/// The specification's text is ONE valid spelling of a value. Where the library chooses another spelling that is a valid
+/// response element of the same kind and denotes exactly the same value (C09 / C20 judge spellings), the item is sent as
+/// given, so that framing and capacity are still compared byte for byte; anything else -- the same text, a wrong value,
+/// an invalid element, a formatter error -- goes through the typed formatter and is compared with the specification.
+fn other_spelling<T: ResponseData>(v: &T, it: &[u8], same_value: impl Fn(&[u8]) -> bool) -> bool {
+    own(|| {
+        let mut probe: Vec<u8> = Vec::new();
+        v.format_response_data(&mut probe).is_ok() && probe != it && same_value(&probe)
+    })
+}
+fn block_payload(t: &[u8]) -> Option<&[u8]> {
+    if t.len() < 3 || t[0] != b'#' || !(b'1'..=b'9').contains(&t[1]) {
+        return None;
+    }
+    let n = (t[1] - b'0') as usize;
+    let len = std::str::from_utf8(t.get(2..2 + n)?).ok()?.parse::<usize>().ok()?;
+    if t.len() == 2 + n + len { Some(&t[2 + n..]) } else { None }
+}
+
 fn write_item(r: &mut ResponseUnit, it: &[u8]) {
     match own(|| plan_item(it)) {
-        Plan::Int(v) => r.data(v),
-        Plan::Float(v) => {
-            // The specification's text is one valid spelling of the value. Another spelling that is a valid NRf response and
-            // reads back to exactly the same value is the library's choice (C09 judges spellings): the item is then sent as
-            // given, so that framing / capacity are still compared byte for byte. Anything else goes through the typed formatter.
-            let other_spelling = own(|| {
-                let mut probe: Vec<u8> = Vec::new();
-                let ok = v.format_response_data(&mut probe).is_ok();
-                ok && probe != it && crate::numeric::is_nrf(&probe)
-                    && std::str::from_utf8(&probe).ok().and_then(|t| t.parse::<f64>().ok()).map(|x| x.to_bits()) == Some(v.to_bits())
+        Plan::Int(v) => {
+            let alt = other_spelling(&v, it, |p| {
+                let d = p.strip_prefix(b"+").or(p.strip_prefix(b"-")).unwrap_or(p);
+                !d.is_empty() && d.iter().all(|c| c.is_ascii_digit())
+                    && std::str::from_utf8(p).ok().and_then(|t| t.trim_start_matches('+').parse::<i64>().ok()) == Some(v)
             });
-            if other_spelling { r.data(Character(it)) } else { r.data(v) }
+            if alt { r.data(Character(it)) } else { r.data(v) }
+        }
+        Plan::Float(v) => {
+            let alt = other_spelling(&v, it, |p| {
+                crate::numeric::is_nrf(p) && std::str::from_utf8(p).ok().and_then(|t| t.parse::<f64>().ok()).map(|x| x.to_bits()) == Some(v.to_bits())
+            });
+            if alt { r.data(Character(it)) } else { r.data(v) }
         }
         Plan::Str(a, b) => r.data(&it[a..b]),
-        Plan::Block(a) => r.data(Arbitrary(&it[a..])),
+        Plan::Block(a) => {
+            let alt = other_spelling(&Arbitrary(&it[a..]), it, |p| block_payload(p) == Some(&it[a..]));
+            if alt { r.data(Character(it)) } else { r.data(Arbitrary(&it[a..])) }
+        }
         Plan::Err(code, ext) => {
             let e = own(|| mk_error(code, ext));
             r.data(e)
         }
-        Plan::Enum(v) => r.data(v),
+        Plan::Enum(v) => {
+            use scpi::option::ScpiEnum;
+            let alt = other_spelling(&v, it, |p| RespFmt::from_mnemonic(p) == Some(v));
+            if alt { r.data(Character(it)) } else { r.data(v) }
+        }
         Plan::List(v) => {
             // through the fixed-capacity list type when the first element is odd, else through the growable one
             if v[0] % 2 != 0 {
